@@ -811,3 +811,101 @@ func R7FileIDDecode(c *Ctx) {
 		c.R.Anchor(rule, "calls of DownloadAdd/DownloadWrite/DownloadGet/DownloadClose in TaskDispatch")
 	}
 }
+
+// R7CloseReasons — every end-of-transfer reason the close handler distinguishes releases the transfer.
+func R7CloseReasons(c *Ctx) {
+	const rule = "R7-close-reasons"
+	c.R.Rule(rule, "where TaskDispatch calls DownloadClose under a test `v == k` of a value v parsed from the callback that is compared with fewer than four constants in all (a reason/flag, not a command tag), every constant v is compared with has a DownloadClose call under it: the branches that tell the operator a transfer ended (finished, removed) all release it — a branch that only reports leaves the file handle open and the id accepting chunks", 1)
+	td := c.P.Func(PkgAgent, "Agent.TaskDispatch")
+	if td == nil {
+		c.R.Anchor(rule, "agent.(*Agent).TaskDispatch")
+		return
+	}
+	parsed := func(v ssa.Value) ssa.Value {
+		for {
+			if cv, ok := v.(*ssa.Convert); ok {
+				v = cv.X
+				continue
+			}
+			break
+		}
+		if call, ok := v.(*ssa.Call); ok && strings.HasPrefix(CalleeName(call), "(*Havoc/pkg/common/parser.Parser).Parse") {
+			return call
+		}
+		return nil
+	}
+	n := 0
+	for _, fn := range HelperClosure(td, 1) {
+		consts := map[ssa.Value]map[int64]token.Pos{}
+		for _, b := range fn.Blocks {
+			for _, in := range b.Instrs {
+				bo, ok := in.(*ssa.BinOp)
+				if !ok || (bo.Op != token.EQL && bo.Op != token.NEQ) {
+					continue
+				}
+				for _, pair := range [][2]ssa.Value{{bo.X, bo.Y}, {bo.Y, bo.X}} {
+					if x := parsed(pair[0]); x != nil {
+						if k, isC := ConstInt(pair[1]); isC {
+							if consts[x] == nil {
+								consts[x] = map[int64]token.Pos{}
+							}
+							consts[x][k] = bo.Pos()
+						}
+					}
+				}
+			}
+		}
+		closedUnder := map[ssa.Value]map[int64]bool{}
+		EachCall(fn, func(call ssa.CallInstruction) {
+			if CalleeName(call) != "(*Havoc/pkg/agent.Agent).DownloadClose" {
+				return
+			}
+			// the innermost test of a parsed value around the call (outer ones select the sub-command and the mode)
+			var inX ssa.Value
+			var inK int64
+			var inIf *ssa.If
+			for _, f := range FactsAt(call.Block()) {
+				cond, truth := StripNot(f.Cond, f.Truth)
+				bo, ok := cond.(*ssa.BinOp)
+				if !ok || !((bo.Op == token.EQL) == truth) || (bo.Op != token.EQL && bo.Op != token.NEQ) {
+					continue
+				}
+				for _, pair := range [][2]ssa.Value{{bo.X, bo.Y}, {bo.Y, bo.X}} {
+					if x := parsed(pair[0]); x != nil {
+						if k, isC := ConstInt(pair[1]); isC {
+							if inIf == nil || inIf.Block().Dominates(f.If.Block()) {
+								inX, inK, inIf = x, k, f.If
+							}
+						}
+					}
+				}
+			}
+			if inX != nil && len(consts[inX]) < 4 {
+				if closedUnder[inX] == nil {
+					closedUnder[inX] = map[int64]bool{}
+				}
+				closedUnder[inX][inK] = true
+			}
+		})
+		for x, ks := range closedUnder {
+			n++
+			construct := "DownloadClose under every compared value of a parsed reason"
+			missing := ""
+			var pos token.Pos
+			for k, p := range consts[x] {
+				if !ks[k] {
+					missing = itoa(int(k))
+					pos = p
+				}
+			}
+			if missing == "" {
+				c.R.Ok(rule, FuncShort(fn), construct, c.pos(x.Pos()), "all distinguished reasons release the transfer", true)
+			} else {
+				c.R.Bad(rule, FuncShort(fn), construct, c.pos(pos), "the handler distinguishes the value "+missing+" of this field but does not call DownloadClose under it, while it does under its siblings: that end-of-transfer report leaves the download open")
+			}
+		}
+	}
+	if n == 0 {
+		c.R.Anchor(rule, "a DownloadClose call under a reason test in TaskDispatch")
+	}
+}
